@@ -3,7 +3,7 @@
    inserted lines and bytes (Model/Shift.v).  Proved for the modelled queries; that the HCL parser maps
    the translated text to the translated tree is a hypothesis, validated by the harness on every pair. *)
 From Coq Require Import String List ZArith Bool.
-From HV Require Import Base.Pos Model.Schema Model.Ast Model.Merge Model.Validate Model.BodyQueries Model.Shift Proofs.ShiftProofs Proofs.ShiftSymbols.
+From HV Require Import Base.Pos Model.Schema Model.Ast Model.Merge Model.Validate Model.BodyQueries Model.Shift Proofs.ShiftProofs Proofs.ShiftSymbols Model.Links Proofs.ShiftLinks.
 
 (* the schema in force inside a block does not depend on where the block is *)
 Theorem C18_effective_schema_position_independent : forall file at_ dl db sc k,
@@ -29,3 +29,10 @@ Theorem C18_symbols_equivariant : forall file at_ dl db, (0 <= db)%Z -> forall b
   symbols_body bs (shift_body file at_ dl db b) = map (shift_symbol file at_ dl db) (symbols_body bs b).
 Proof. exact symbols_body_equivariant. Qed.
 Print Assumptions C18_symbols_equivariant.
+
+(* the documentation links of the translated file = the translated links (same URLs and tooltips, on the moved labels
+   and key attributes) *)
+Theorem C18_links_equivariant : forall file at_ dl db url bs b,
+  links_in_body url bs (shift_body file at_ dl db b) = map (shift_link file at_ dl db) (links_in_body url bs b).
+Proof. exact links_in_body_equivariant. Qed.
+Print Assumptions C18_links_equivariant.
